@@ -63,11 +63,11 @@ def is_symseq(x):
 
 def has_sym(x):
     """does x (shallowly) carry symbolic content?"""
-    if isinstance(x, (SymInt, SymBool, SymReal, SymSeq, SymStr)):
+    if isinstance(x, (SymInt, SymBool, SymReal, SymSeq, SymStr, SymLenBase)):
         return True
     if isinstance(x, (list, tuple)):
         for i in x:
-            if isinstance(i, (SymInt, SymBool, SymReal, SymSeq, SymStr)):
+            if isinstance(i, (SymInt, SymBool, SymReal, SymSeq, SymStr, SymLenBase)):
                 return True
     return False
 
@@ -998,3 +998,124 @@ def parse_int(seq, is_str):
             return 0
         return SymNegInt()
     return val
+
+
+# =============================================================================================
+# byte strings of SYMBOLIC LENGTH with abstract content (C03: Frame.build for every payload length at once)
+# =============================================================================================
+# The content is one abstract block `src` of `symlen` bytes; what the code does to it is recorded per residue class
+# (index mod 4): which residue of the source it now holds and the translate tables applied, in order.  That is all
+# mask_payload's slicing (`data[r::4] = data[r::4].translate(t)`) can do to it; anything else is an EngineLimit.
+
+class SymLenBase(object):
+    pass
+
+
+def _ident_lanes():
+    return [(r, ()) for r in range(4)]
+
+
+class SymLenBytes(SymLenBase):
+    """immutable: prefix items ++ abstract block"""
+
+    def __init__(self, symlen, src, lanes=None, prefix=()):
+        self.symlen = symlen            # SymInt: length of the abstract block
+        self.src = src
+        self.lanes = list(lanes) if lanes is not None else _ident_lanes()
+        self.prefix = list(prefix)
+
+    @property
+    def _sx_symlen(self):
+        return self.symlen + len(self.prefix) if self.prefix else self.symlen
+
+    def __len__(self):
+        raise EngineLimit('native len() of a symbolic-length byte string')
+
+    def __bool__(self):
+        return True if self.prefix else bool(self.symlen != 0)
+
+    def __radd__(self, o):
+        if isinstance(o, (SymSeq, _bytes, _bytearray, _memoryview)):
+            if isinstance(o, (_bytearray, SymByteArray)):
+                raise EngineLimit('bytearray + symbolic-length bytes')
+            return SymLenBytes(self.symlen, self.src, self.lanes, items_of(o) + self.prefix)
+        return NotImplemented
+
+    def __add__(self, o):
+        if isinstance(o, (SymSeq, _bytes)) and len(items_of(o)) == 0:
+            return self
+        raise EngineLimit('symbolic-length bytes + bytes')
+
+    def __hash__(self):
+        return id(self)
+
+    def __repr__(self):
+        return '<SymLenBytes %d+L>' % len(self.prefix)
+
+
+class SymLenByteArray(SymLenBase):
+    """mutable: prefix items ++ abstract block; the object mask_payload works on.  `lanes[j]` describes the bytes of
+    the block at block offsets j, j+4, ...: (source block residue, translate tables applied)"""
+
+    def __init__(self, symlen, src, lanes=None, prefix=()):
+        self.symlen = symlen
+        self.src = src
+        self.lanes = list(lanes) if lanes is not None else _ident_lanes()
+        self.prefix = list(prefix)
+
+    @property
+    def _sx_symlen(self):
+        return self.symlen + len(self.prefix) if self.prefix else self.symlen
+
+    def __len__(self):
+        raise EngineLimit('native len() of a symbolic-length bytearray')
+
+    def __bool__(self):
+        return True if self.prefix else bool(self.symlen != 0)
+
+    @staticmethod
+    def _lane(k):
+        if isinstance(k, slice) and k.stop is None and k.step == 4 and k.start in (None, 0, 1, 2, 3):
+            return k.start or 0
+        raise EngineLimit('symbolic-length bytearray indexed with %r (only [r::4] is modelled)' % (k,))
+
+    def __getitem__(self, k):
+        r = self._lane(k)
+        j = (r - len(self.prefix)) % 4
+        return _SymLenLane(self.src, self.lanes[j], self.prefix[r::4])
+
+    def __setitem__(self, k, v):
+        r = self._lane(k)
+        if not isinstance(v, _SymLenLane) or v.src is not self.src:
+            raise EngineLimit('symbolic-length bytearray slice assigned from %r' % type(v).__name__)
+        if len(self.prefix[r::4]) != len(v.pre):
+            # (CPython raises ValueError when the two extended slices differ in size; not needed so far)
+            raise EngineLimit('symbolic-length bytearray slice assigned from a lane of another shape')
+        self.prefix[r::4] = v.pre
+        self.lanes[(r - len(self.prefix)) % 4] = v.lane
+    __hash__ = None
+
+
+class _SymLenLane(SymLenBase):
+    """copy of every 4th byte of a symbolic-length buffer"""
+
+    def __init__(self, src, lane, pre):
+        self.src = src
+        self.lane = lane            # (source block residue, tables applied)
+        self.pre = list(pre)        # the explicit (prefix) items of this lane
+
+    def translate(self, table):
+        if not (isinstance(table, RowSel) or (isinstance(table, (_bytes, SymSeq)) and len(items_of(table)) == 256)):
+            raise EngineLimit('translate table of unexpected shape')
+        lane = (self.lane[0], self.lane[1] + (table,))
+        return _SymLenLane(self.src, lane, [lane_apply((0, (table,)), x) for x in self.pre])
+
+
+def lane_apply(lane, x):
+    """the byte that a lane's tables turn byte x into"""
+    for t in lane[1]:
+        if isinstance(t, RowSel):
+            x = t.lookup(x)
+        else:
+            x = ite_table(items_of(t), SymInt.lift(x))
+    return x
